@@ -1426,6 +1426,7 @@ def translate(repo, available, ast_of):
     `ast_of(src, flt)` -> (docs, error)"""
     out = []
     avail = set(available)
+    EFn._helper_cache.clear()        # the tree may have changed since the last call in this process
     for name, src, flt in PRELUDE_DEFS:
         docs, err = ast_of(src, flt)
         try:
